@@ -784,6 +784,65 @@ class G:
         self.dump(sc, "log")
         return self.finish(sc, "v1_reenter", 0)
 
+    def v1_stale_handles(self, full=False):
+        """handles of an OLDER generation used after the state was updated during an interrupt AND after new
+        entries / iterators were created, so that the same indices are populated again: every entry_* and
+        iterator_* function must answer with its invalid encoding and leave the unrelated new entry untouched"""
+        self.begin(0)
+        self.stream, self.valid = "valid", True
+        sc = self.base(1, "recv", pages=1)
+        self.init_kv(sc)
+        pat = pattern(256)
+        if not any(k[:1] == pat[0:1] for k, _ in sc["state0"]):
+            sc["state0"] = sorted(dict(sc["state0"] + [(pat[0:2], b"old-value")]).items())
+        # generation 0: entry handles (index 0, 1) and an iterator (index 0), optionally advanced
+        e_old = [self.call(sc, self.pick(["state_lookup_entry", "state_create_entry"]), DATA, 2)]
+        if full or self.chance(0.6):
+            e_old.append(self.call(sc, "state_create_entry", DATA + 7, 4))
+        i_old = [self.call(sc, "state_iterate_prefix", DATA, 1)]
+        if full or self.chance(0.5):
+            e_old.append(self.call(sc, "state_iterator_next", ("s", i_old[0])))
+        # the state is updated while the contract is interrupted (flag only, or a committed nested call)
+        self.call(sc, "invoke", 0, ADDR, 40)
+        if self.chance(0.5):
+            sc["resp"].append({"k": "ok", "bal": "3", "data": None, "upd": True})
+        else:
+            nested = {"param": b"", "data": [[DATA, pattern(256)]], "calls": [("state_create_entry", [DATA + 2, 1])],
+                      "ret": 0, "commit": True, "energy": 10 ** 9}
+            sc["resp"].append({"k": "ok", "bal": "3", "data": None, "upd": False, "nested": nested})
+        # generation 1: populate the same indices again with UNRELATED entries / iterators
+        e_new = self.call(sc, "state_create_entry", DATA + 1, 2)
+        self.call(sc, "state_entry_write", ("s", e_new), DATA + 40, 12, 0)
+        e_new2 = self.call(sc, "state_lookup_entry", DATA + 1, 2)
+        i_new = self.call(sc, "state_iterate_prefix", DATA + 1, 1)
+        self.call(sc, "state_iterator_next", ("s", i_new))
+        # stale uses
+        uses = [("state_entry_write", lambda h: [h, DATA + 100, 6, self.pick([0, 3])]),
+                ("state_entry_read", lambda h: [h, DEST, 12, 0]),
+                ("state_entry_resize", lambda h: [h, self.pick([0, 3, 40])]),
+                ("state_entry_size", lambda h: [h]),
+                ("state_iterator_next", lambda h: [h]),
+                ("state_iterator_key_size", lambda h: [h]),
+                ("state_iterator_key_read", lambda h: [h, DEST + 32, 8, 0]),
+                ("state_iterator_delete", lambda h: [h])]
+        if not full:
+            self.r.shuffle(uses)
+            uses = uses[:self.r.randrange(3, 9)]
+        for f, mk in uses:
+            old = self.pick(e_old) if "entry" in f else self.pick(i_old)
+            h = ("s", old)
+            if not full and self.chance(0.15):
+                h = self.pick([(2 << 32), (2 << 32) + 1, (1 << 63), (1 << 32) + 7])   # future generation / unknown index
+            self.call(sc, f, *mk(h))
+        # the new entry and iterator are untouched and still usable
+        self.call(sc, "state_entry_size", ("s", e_new))
+        self.call(sc, "state_entry_read", ("s", e_new2), DEST + 64, 16, 0)
+        self.call(sc, "state_iterator_key_size", ("s", i_new))
+        self.call(sc, "state_iterator_next", ("s", i_new))
+        self.call(sc, "state_iterator_delete", ("s", i_new))
+        self.dump(sc, "log")
+        return self.finish(sc, "v1_stale_handles", 0)
+
     def corpus_iter(self):
         """fixed regression script: iterator life cycle, locks, traversal (energy is a lower bound here)"""
         self.begin(0)
@@ -818,7 +877,7 @@ class G:
                 (lambda: self.params(1), 8), (self.v0_actions, 10), (lambda: self.ctx(0), 5), (lambda: self.ctx(1), 5),
                 (self.v1_state, 18), (self.v1_rv, 7), (self.v1_invoke, 16), (self.v1_crypto, 8),
                 (lambda: self.mixed(0), 5), (lambda: self.mixed(1), 7), (self.v1_bigentry, 1), (self.v0_oversized_state, 0.3),
-                (self.v1_iter_exhaust, 5), (self.v1_too_many_iterators, 2), (self.v1_reenter, 9)]
+                (self.v1_iter_exhaust, 5), (self.v1_too_many_iterators, 2), (self.v1_reenter, 9), (self.v1_stale_handles, 7)]
         tot = sum(w for _, w in plan)
         for i in range(n):
             x = self.r.random() * tot
@@ -830,6 +889,7 @@ class G:
             sc["id"] = i
             out.append(sc)
         for f in (self.v0_oversized_state, self.corpus_iter, self.v1_too_many_iterators, self.v1_reenter,
+                  lambda: self.v1_stale_handles(True), lambda: self.v1_stale_handles(True),
                   lambda: self.v1_too_many_interrupts(8388608)) + (() if n <= 1000 else (lambda: self.v1_too_many_interrupts(8388607),)):
             sc = f()
             sc["id"] = len(out)
